@@ -425,6 +425,11 @@ class BuiltinMixin:
                 return NONE
             if meth == "count":
                 return self.seq_count(st, recv, args[0])
+            if meth == "extend":
+                other = self.force(st, args[0])
+                oz = other if (isinstance(other, Z) and other.t.kind == "seq" and other.e.sort() == recv.e.sort()) else self.to_z(st, other, recv.t)
+                self.assign(st, self._as_store(loc), Z(recv.t, z3.Concat(recv.e, oz.e)))
+                return NONE
             if meth == "copy":
                 return recv
         if kind == "arr":
